@@ -6,6 +6,7 @@ CONSTANTS
   MaxViews = 4
   MaxAccs = 2
   Mode = "c16"
+  AccSet = "base"
   SubVariants = "small"
   MaxHist = 99
 SPECIFICATION MCSpec
